@@ -15,38 +15,63 @@ type VerifC15Block struct {
 	Min, Max, Res int64
 }
 
-// VerifC15Set wraps a real bucketBlockSet filled through add().
+// VerifC15Set wraps a real bucketBlockSet driven through add() and remove().
 type VerifC15Set struct {
 	s   *bucketBlockSet
 	idx map[*bucketBlock]int
 }
 
+// VerifC15Empty returns an empty real bucketBlockSet (empty external labels).
+func VerifC15Empty() *VerifC15Set {
+	return &VerifC15Set{s: newBucketBlockSet(labels.EmptyLabels()), idx: map[*bucketBlock]int{}}
+}
+
+func verifC15ID(i int) ulid.ULID {
+	var id ulid.ULID
+	id[14] = byte((i + 1) >> 8)
+	id[15] = byte(i + 1)
+	return id
+}
+
+// Add calls bucketBlockSet.add with a new block that is known to the caller as number i.
+func (v *VerifC15Set) Add(i int, b VerifC15Block) error {
+	id := verifC15ID(i)
+	m := &metadata.Meta{}
+	m.ULID = id
+	m.BlockMeta = tsdb.BlockMeta{ULID: id, MinTime: b.Min, MaxTime: b.Max}
+	m.Thanos.Downsample.Resolution = b.Res
+	bb := &bucketBlock{meta: m}
+	v.idx[bb] = i
+	return v.s.add(bb)
+}
+
+// Remove calls bucketBlockSet.remove with the ULID of block number i (whether or not it is in the set).
+func (v *VerifC15Set) Remove(i int) {
+	v.s.remove(verifC15ID(i))
+}
+
 // VerifC15NewSet adds the blocks, in the given order, to a fresh bucketBlockSet.
 func VerifC15NewSet(blocks []VerifC15Block) (*VerifC15Set, error) {
-	v := &VerifC15Set{s: newBucketBlockSet(labels.EmptyLabels()), idx: map[*bucketBlock]int{}}
+	v := VerifC15Empty()
 	for i, b := range blocks {
-		var id ulid.ULID
-		id[15] = byte(i + 1)
-		m := &metadata.Meta{}
-		m.ULID = id
-		m.BlockMeta = tsdb.BlockMeta{ULID: id, MinTime: b.Min, MaxTime: b.Max}
-		m.Thanos.Downsample.Resolution = b.Res
-		bb := &bucketBlock{meta: m}
-		if err := v.s.add(bb); err != nil {
+		if err := v.Add(i, b); err != nil {
 			return nil, err
 		}
-		v.idx[bb] = i
 	}
 	return v, nil
 }
 
-// GetFor calls bucketBlockSet.getFor without block matchers and returns the positions (in the slice given to
-// VerifC15NewSet) of the returned blocks, in the returned order.
+// GetFor calls bucketBlockSet.getFor without block matchers and returns the numbers (as given to Add) of the
+// returned blocks, in the returned order; -1 stands for a returned pointer that is nil or was never added.
 func (v *VerifC15Set) GetFor(mint, maxt, maxRes int64) []int {
 	bs := v.s.getFor(mint, maxt, maxRes, nil)
 	out := make([]int, len(bs))
 	for i, b := range bs {
-		out[i] = v.idx[b]
+		n, ok := v.idx[b]
+		if !ok {
+			n = -1
+		}
+		out[i] = n
 	}
 	return out
 }
